@@ -90,3 +90,63 @@ func H08a_d4() { h08a(2, 2, 2) }
 func H08a_d5() { h08a(1, 3, 3) }
 func H08a_d6() { h08a(2, 3, 1) }
 func H08a_d7() { h08a(2, 2, 1) }
+
+// H08b: addPattern/matchPattern are add/match after splitting on "/".
+func h08b(S int) {
+	var tt testTrie
+	p := vStringOf("pat", S, "a*/")
+	n := vStringOf("name", S, "a/")
+	tt.addPattern(p)
+	got := tt.matchPattern(n)
+	want := specGlob(vModelSplit(p, "/"), vModelSplit(n, "/"))
+	vAssert(got == want, "matchPattern(name) == glob(split(pattern), split(name))")
+}
+
+func H08b_q() { h08b(4) }
+func H08b_t() { h08b(5) }
+
+// H08c: a pattern that matches none of the names is reported by allUnmatched.
+func h08c(P, L, N int) {
+	var tt testTrie
+	pats := make([][]string, 0, P)
+	np := vInt("np", 1, P)
+	for i := 0; i < np; i++ {
+		l := vIntAt("plen", i, P, 1, L)
+		p := make([]string, l)
+		for j := 0; j < l; j++ {
+			p[j] = vComp(vIntAt("pc", i*L+j, P*L, 0, 3))
+		}
+		tt.add(p)
+		pats = append(pats, p)
+	}
+	names := make([][]string, 0, 2)
+	nn := vInt("nn", 0, 2)
+	for k := 0; k < nn; k++ {
+		nl := vIntAt("nlen", k, 2, 1, N)
+		name := make([]string, nl)
+		for j := 0; j < nl; j++ {
+			name[j] = vComp(vIntAt("nc", k*N+j, 2*N, 0, 1))
+		}
+		names = append(names, name)
+		tt.match(name)
+	}
+	unmatched := tt.allUnmatched()
+	for _, p := range pats {
+		matchesSome := false
+		for _, n := range names {
+			if specGlob(p, n) {
+				matchesSome = true
+			}
+		}
+		if !matchesSome {
+			_, reported := unmatched[vModelJoin(p, "/")]
+			vAssert(reported, "a pattern that matches no name is reported as unmatched")
+		}
+	}
+}
+
+func H08c_q() { h08c(2, 2, 2) }
+func H08c_t() { h08c(3, 3, 3) }
+
+func H08b_d3() { h08b(3) }
+func H08b_d4() { h08b(4) }
